@@ -170,7 +170,31 @@ def observe(entry, cfg, seed):
         return {"crash": type(e).__name__ + ": " + str(e)[:140] + " @ " + traceback.format_exc().splitlines()[-3].strip()[:100]}
 
 
-KIND = {"deseason_add": "deseason_add", "deseason_mul": "deseason_mul", "cond_deseason": "cond_deseason",
+def first_high(y, sp=None):
+    return bool(np.asarray(y, dtype=float)[0] > 62.0)
+
+
+def first_low(y, sp=None):
+    return bool(np.asarray(y, dtype=float)[0] < 62.0)
+
+
+def all_entries():
+    """The registry's series transformers plus two conditional deseasonalizers whose seasonality test depends on the
+    data: the driver's series start near 66 at time 0 and near 59 at time 1, so the training series (from time 0) and
+    the stretch an object was fitted on before (from time 1) get opposite verdicts -- the decision must be the
+    current fit's."""
+    from sktime.transformations.series.detrend import ConditionalDeseasonalizer
+    L = list(E.series_transformers())
+    base = dict(kind="series-transformer", methods=["transform", "inverse_transform"], inverse=True, positive=False,
+                same_index=True, missing=False, update=True, frame=False)
+    L.append(dict(base, name="cond_deseason_first_high",
+                  factory=lambda: ConditionalDeseasonalizer(sp=4, seasonality_test=first_high)))
+    L.append(dict(base, name="cond_deseason_first_low",
+                  factory=lambda: ConditionalDeseasonalizer(sp=4, seasonality_test=first_low)))
+    return L
+
+
+KIND = {"cond_deseason_first_high": "cond_deseason", "deseason_add": "deseason_add", "deseason_mul": "deseason_mul", "cond_deseason": "cond_deseason",
         "optpass_deseason_reconfigured": "deseason_add"}
 
 
@@ -182,7 +206,7 @@ def run(ctx):
         raise T.TLCError("no scenarios")
     ctx.notes.append("scenarios emitted by TLC: %d" % len(scen))
     ctx.exhaustive = False
-    entries = E.series_transformers()
+    entries = all_entries()
     recs = []
     for ei, entry in enumerate(entries):
         kind = KIND.get(entry["name"], "other")
@@ -229,7 +253,7 @@ def run(ctx):
 
 def replay(ctx, doc):
     sc = doc["scenario"]
-    entry = [e for e in E.series_transformers() if e["name"] == sc["estimator"]][0]
+    entry = [e for e in all_entries() if e["name"] == sc["estimator"]][0]
     obs = observe(entry, sc["cfg"], sc["seed"])
     print("observed:", canon(obs)[:1500])
     if "crash" in obs:
